@@ -310,4 +310,40 @@ def seqOps (cfg : Cfg) (lib : Bytes → Option Bytes) : List Task → Fs → Lis
     let o := minifyOps cfg (.ok [outBytes cfg lib t fs]) t fs
     o ++ seqOps cfg lib rest (run o fs)
 
+/-! ## preconditions of the system calls (success path) -/
+
+def dirOk (fs : Fs) (d : Path) : Bool := d == [dot] || d == [slash] || fs.dirs.contains d
+
+/-- the call succeeds in state `fs` (its file / directory / handle preconditions hold).  `minifyOps` is the
+    sequence of the *success* path; the correspondence run evaluates `firstDisabled` on every generated
+    case (it must be `none`), it is not a theorem. -/
+def enabled (fs : Fs) : Op → Bool
+  | .rename a b => (fs.get a).isSome && dirOk fs (parentDir b)
+  | .openRead p => (fs.get p).isSome
+  | .openTrunc p => dirOk fs (parentDir p)
+  | .write p _ => fs.wr.contains p && (fs.get p).isSome
+  | .close p => fs.wr.contains p || fs.rd.contains p
+  | .remove p => (fs.get p).isSome
+  | .mkdir d => !fs.dirs.contains d && dirOk fs (parentDir d)
+  | .chmod p => (fs.get p).isSome || fs.dirs.contains p
+  | .chown p => (fs.get p).isSome || fs.dirs.contains p
+  | .chtimes p => (fs.get p).isSome || fs.dirs.contains p
+
+/-- index of the first op of the sequence whose precondition fails when the sequence is run from `fs` -/
+def firstDisabled (fs : Fs) (ops : List Op) (i : Nat := 0) : Option Nat :=
+  match ops with
+  | [] => none
+  | op :: r => if enabled fs op then firstDisabled (step fs op) r (i + 1) else some i
+
+/-- tasks executed by the worker pool (`minifyWorker` goroutines): `sch` names, step by step, the task
+    that performs its next system call (a task without remaining calls idles).  Every interleaving of
+    prefixes of the task sequences — every crash point of every schedule — is `interleave opss sch` for
+    some `sch`. -/
+def interleave (rem : List (List Op)) : List Nat → List Op
+  | [] => []
+  | j :: rest =>
+    match rem[j]? with
+    | some (op :: tl) => op :: interleave (rem.set j tl) rest
+    | _ => interleave rem rest
+
 end Verif.Model.CliFs
